@@ -86,6 +86,56 @@ fn qualmap_explore(ctx: &Ctx, thorough: bool, keys: Vec<&str>, vals: Vec<&str>, 
         states += 1;
         ctx.nontrivial();
         let m0 = model_of(&c);
+        // once per content: predicates that drop SEVERAL entries (adjacent ones, the first, the last, every other one, by value),
+        // with and without mutation; kept entries keep their value (also an empty one) and their order
+        {
+            ctx.eval();
+            let n = c.len();
+            for pick in 0..6usize {
+                let drop_at = |i: usize, v: &str| match pick { 0 => i < 2, 1 => i + 2 >= n, 2 => i % 2 == 0, 3 => i % 2 == 1, 4 => v.is_empty(), _ => !v.is_empty() };
+                let mut q = build(&c);
+                let mut i = 0usize;
+                q.retain(|_, v| { let d = drop_at(i, v); i += 1; !d });
+                let m: Model = c.iter().enumerate().filter(|(i, (_, v))| !drop_at(*i, v)).map(|(_, (k, v))| (k.clone(), v.clone())).collect();
+                check_rep(ctx, &q, &m, "retain(several)");
+                let mut q = build(&c);
+                let mut i = 0usize;
+                q.retain_mut(|_, v| { let d = drop_at(i, v); i += 1; if !d && pick == 2 { v.push('~'); } !d });
+                let m: Model = c.iter().enumerate().filter(|(i, (_, v))| !drop_at(*i, v)).map(|(_, (k, v))| (k.clone(), if pick == 2 { format!("{v}~") } else { v.clone() })).collect();
+                check_rep(ctx, &q, &m, "retain_mut(several)");
+            }
+            // the iterator protocol of every iterator the collection hands out, against the plain list of pairs
+            let q = build(&c);
+            let want: Vec<(String, String)> = c.clone();
+            let pairs = |it: &mut dyn Iterator<Item = (String, String)>| -> Vec<(String, String)> { it.collect() };
+            let r = guarded(|| {
+                let mut bad: Vec<String> = vec![];
+                let own = |(k, v): (&purl::qualifiers::QualifierKey, &str)| (k.as_str().to_owned(), v.to_owned());
+                if q.iter().last().map(own) != want.last().cloned() { bad.push("iter().last()".into()); }
+                if q.iter().count() != n || q.iter().len() != n || q.iter().size_hint() != (n, Some(n)) { bad.push("count / len / size_hint".into()); }
+                for k in 0..=n { if q.iter().nth(k).map(own) != want.get(k).cloned() { bad.push(format!("nth({k})")); } }
+                if q.iter().rev().last().map(own) != want.first().cloned() { bad.push("rev().last()".into()); }
+                if q.iter().min_by_key(|(k, _)| k.as_str().to_owned()).map(own) != want.first().cloned() { bad.push("min".into()); }
+                let mut it = q.iter(); let mut both: Vec<(String, String)> = vec![]; let mut back: Vec<(String, String)> = vec![];
+                loop { match it.next() { Some(x) => both.push(own(x)), None => break } match it.next_back() { Some(x) => back.push(own(x)), None => break } }
+                back.reverse(); both.extend(back);
+                if both != want { bad.push("next / next_back interleaved".into()); }
+                if (&q).into_iter().map(own).collect::<Vec<_>>() != want { bad.push("IntoIterator for &Qualifiers".into()); }
+                let mut q2 = q.clone();
+                if q2.iter_mut().map(|(k, v)| (k.as_str().to_owned(), v.to_string())).collect::<Vec<_>>() != want { bad.push("iter_mut()".into()); }
+                if q2.iter_mut().last().map(|(k, v)| (k.as_str().to_owned(), v.to_string())) != want.last().cloned() { bad.push("iter_mut().last()".into()); }
+                if q2.iter_mut().rev().map(|(k, v)| (k.as_str().to_owned(), v.to_string())).collect::<Vec<_>>() != want.iter().rev().cloned().collect::<Vec<_>>() { bad.push("iter_mut().rev()".into()); }
+                if q2.iter_mut().len() != n { bad.push("iter_mut().len()".into()); }
+                if q.clone().into_iter().map(|(k, v)| (k.as_str().to_owned(), v.to_string())).collect::<Vec<_>>() != want { bad.push("owned into_iter".into()); }
+                bad
+            });
+            let _ = pairs;
+            match r {
+                Ok(bad) if bad.is_empty() => {},
+                Ok(bad) => ctx.violate("C11.iter", "iteration from the back, len, is_empty match", json!({"content": format!("{c:?}")}), format!("{bad:?}"), "as the list of pairs".into()),
+                Err(p) => ctx.violate("C06.panic", "iterating a qualifier collection never panics", json!({"content": format!("{c:?}")}), p, "no panic".into()),
+            }
+        }
         let big = c.len() > 8;
         let mut push = |q: &Qualifiers| { if big { return; } let n = content(q); if seen.insert(n.clone()) { queue.push_back(n); } };
         let probe: Vec<String> = if big {
@@ -383,7 +433,9 @@ enum Op { Ns(&'static str), Name(&'static str), Ver(&'static str), Sub(&'static 
           /// build() and convert the value back into a builder (a failed build leaves the builder as it was)
           Rebuild,
           /// the fallible typed setter with a checksum that converts (TCkOk) and one that does not (TCkBad: odd number of hex digits)
-          TCkOk, TCkBad }
+          TCkOk, TCkBad,
+          /// a typed checksum whose algorithm label itself contains ':' (the text form splits at the LAST ':')
+          TCkColon }
 
 #[derive(Clone, Debug, Default)]
 struct BModel { ty: String, ns: String, name: String, ver: String, sub: String, q: BTreeMap<String, String>, bad_key: bool }
@@ -403,7 +455,7 @@ pub fn suite_builder(ctx: &Ctx, thorough: bool) {
     ops.push(Op::RawQ("r", "")); ops.push(Op::RawQ("K", "raw")); ops.push(Op::RawClear("k"));
     ops.push(Op::Ns("a///b")); ops.push(Op::Sub("x////y/"));
     ops.push(Op::TRepo(" r\t")); ops.push(Op::Rebuild);
-    ops.push(Op::TCkOk); ops.push(Op::TCkBad); ops.push(Op::NoQ("\u{212A}")); ops.push(Op::Q("\u{212A}", "v"));
+    ops.push(Op::TCkOk); ops.push(Op::TCkBad); ops.push(Op::TCkColon); ops.push(Op::NoQ("\u{212A}")); ops.push(Op::Q("\u{212A}", "v"));
     ops.push(Op::RawIdx("checksum", "SHA256:AABB,md5:00FF")); ops.push(Op::RawIdx("Checksum", "sha256:xyz")); ops.push(Op::RawEntry("checksum", "B:00,a:11")); ops.push(Op::RawEntry("k", ""));
     let len = if thorough { 4 } else { 3 };
     let n = ops.len();
@@ -491,6 +543,13 @@ fn builder_one(ctx: &Ctx, seq: Vec<Op>) {
                         other => { ctx.violate("C09.typed", "the fallible typed setter stores a value that converts", json!(format!("{seq:?}")), format!("{:?}", other.map(|r| r.is_ok())), "Ok".into()); cur },
                     }
                 },
+                Op::TCkColon => {
+                    let mut c = purl::qualifiers::well_known::Checksum::default(); c.insert_raw("SHA512:256", "AB".to_string());
+                    match guarded(|| cur.clone().try_with_typed_qualifier(Some(c))) {
+                        Ok(Ok(nb)) => { m.q.insert("checksum".into(), "sha512:256:ab".into()); nb },
+                        other => { ctx.violate("C09.typed", "the fallible typed setter stores a value that converts", json!(format!("{seq:?}")), format!("{:?}", other.map(|r| r.is_ok())), "Ok".into()); cur },
+                    }
+                },
                 Op::TCkBad => {
                     let mut c = purl::qualifiers::well_known::Checksum::default(); c.insert_raw("sha1", "abc".to_string());
                     match guarded(|| cur.clone().try_with_typed_qualifier(Some(c))) {
@@ -574,6 +633,7 @@ fn builder_one(ctx: &Ctx, seq: Vec<Op>) {
                         Op::RawEntry(k, v) => { let mut c2 = tb; if let Ok(e) = c2.parts.qualifiers.entry(*k) { *e.and_modify(|x| x.clear()).or_insert("") = SmallString::from(*v); } c2 },
                         Op::TCkOk => { let mut c = purl::qualifiers::well_known::Checksum::default(); c.insert_raw("SHA1", "AB".to_string()); let s0 = tb.clone(); tb.try_with_typed_qualifier(Some(c)).unwrap_or(s0) },
                         Op::TCkBad => { let mut c = purl::qualifiers::well_known::Checksum::default(); c.insert_raw("sha1", "abc".to_string()); let s0 = tb.clone(); tb.try_with_typed_qualifier(Some(c)).unwrap_or(s0) },
+                        Op::TCkColon => { let mut c = purl::qualifiers::well_known::Checksum::default(); c.insert_raw("SHA512:256", "AB".to_string()); let s0 = tb.clone(); tb.try_with_typed_qualifier(Some(c)).unwrap_or(s0) },
                     };
                 }
                 let rule_ok = t != PackageType::Maven || sig_ns(&m.ns).is_some();
@@ -779,7 +839,7 @@ impl FromStr for Shape {
     }
 }
 
-pub const HOOKS: u8 = 12;
+pub const HOOKS: u8 = 13;
 impl PurlShape for Shape {
     type Error = ShapeErr;
     fn package_type(&self) -> Cow<str> { Cow::Borrowed(&self.ty) }
@@ -801,7 +861,9 @@ impl PurlShape for Shape {
             // a checksum whose algorithm name has a non-ASCII capital only: canonicalised like any other
             10 => { parts.qualifiers.insert("checksum", "\u{3a3}1:AA,b:00").unwrap(); },
             // namespace and subpath with slashes at the ends: the generic checks do not touch them
-            _ => { parts.namespace = "/team".into(); parts.subpath = "docs/".into(); },
+            11 => { parts.namespace = "/team".into(); parts.subpath = "docs/".into(); },
+            // the hook prunes the list through retain_mut (dropping `arch`, marking the others) and compares keys with literals
+            _ => { parts.qualifiers.retain_mut(|k, v| { if k == "Arch" { return false; } if k == "z" && k != "zz" { v.push('!'); } true }); },
         }
         Ok(())
     }
@@ -854,6 +916,7 @@ pub fn suite_protocol(ctx: &Ctx, thorough: bool) {
                     9 => p.qualifiers().get("checksum").is_none(),
                     10 => p.qualifiers().get("checksum") == Some("b:00,\u{3c3}1:aa"),
                     11 => o.namespace.as_deref() == Some("/team") && o.subpath.as_deref() == Some("docs/"),
+                    12 => p.qualifiers().get("arch").is_none() && match &generic { Ok(Ok(g)) => g.qualifiers().iter().filter(|(k, _)| k.as_str() != "arch").all(|(k, v)| p.qualifiers().get(k.as_str()).map(|x| x.trim_end_matches('!')) == Some(v)) && p.qualifiers().len() + (g.qualifiers().get("arch").is_some() as usize) == g.qualifiers().len(), _ => true },
                     _ => true,
                 };
                 if !ok { ctx.violate("C14.post", "what the hook writes is what the PURL reports, after the generic checks", inp(), format!("{o:?}"), format!("hook {hook}")); }
@@ -861,7 +924,7 @@ pub fn suite_protocol(ctx: &Ctx, thorough: bool) {
             } else if f == 1 {
                 let ok = match hook { 2 => matches!(&r, Err(ShapeErr::Parse(m)) if m.contains("Name")), 6 => matches!(&r, Err(ShapeErr::Parse(m)) if m.contains("InvalidQualifier") || m.contains("Name")),
                     // a hook that only adds empty values, clears the list or blanks the checksum cannot turn an accepted string into a refused one
-                    4 | 8 | 9 | 10 | 11 => !matches!(&generic, Ok(Ok(_))),
+                    4 | 8 | 9 | 10 | 11 | 12 => !matches!(&generic, Ok(Ok(_))),
                     _ => true };
                 if !ok { ctx.violate("C14.post", "an emptied name / malformed checksum from the hook is refused with the generic error", inp(), format!("{r:?}"), "Parse(..)".into()); }
             }
@@ -871,7 +934,8 @@ pub fn suite_protocol(ctx: &Ctx, thorough: bool) {
         fn rec(buf: &mut String, depth: usize, f: &dyn Fn(&str)) { f(buf); if depth == 0 { return; } for t in TOKENS.iter() { let l = buf.len(); buf.push_str(t); rec(buf, depth - 1, f); buf.truncate(l); } }
         let mut buf = String::from("pkg:Ty/");
         rec(&mut buf, n - 1, run_ref);
-        for s in ["pkg:ty/n?k=v#s", "pkg:TY/a/b@1", "pkg:t%79/n", "pkg:/n", "pkg:ty", "http:x", "pkg:///Ty+1/n?checksum=a:00"] { run(s); }
+        for s in ["pkg:ty/n?k=v#s", "pkg:TY/a/b@1", "pkg:t%79/n", "pkg:/n", "pkg:ty", "http:x", "pkg:///Ty+1/n?checksum=a:00",
+                  "pkg:ty/n?arch=x86&build=1&checksum=SHA1:AB&z=9&zz=8", "pkg:ty/n?ARCH=x&b=2&c=3&d=4", "pkg:ty/n?a=1&arch=x&b=2"] { run(s); }
         // a checksum that is malformed AS WRITTEN: still only the generic checks after the hook look at it -- the conversion and the hook
         // both run, and a hook that repairs (5), clears (8) or blanks (9) it makes the parse succeed
         for s in ["pkg:ty/n?checksum=zz", "pkg:Ty/n?a=1&checksum=sha1-b64:q80%3D&z=2", "pkg:ty/n?Checksum=a:0"] {
